@@ -162,3 +162,58 @@ def downward_slot_rule(chk, cid, prog, cfgname):
     if n < 3:
         raise AnalysisBroken('%s: %d order-slot stores found in init_scoring, expected 3' % (cid, n))
     return n
+
+
+def sentinel_bound_rule(chk, cid, prog, cfgname, funcs=('sp_coletree',)):
+    """An array that records "the smallest v seen so far" is primed with a sentinel that no real v can reach: the bound of the loop that produces
+    the v's.  `firstcol[row] = nc` primes the first-nonzero-column table with the column count; priming it with the row count instead is the
+    same for m >= n, but for a wide matrix a row whose first entry lies beyond column m keeps the sentinel m - a real column - and the
+    elimination tree gets an edge that is not in A'A.  For each local array: values stored from a loop variable v (`for (v = ..; v < B; ..)`)
+    and a sentinel stored from a plain dimension variable D must satisfy D == B."""
+    from ..run import AnalysisBroken
+    chk.clause(cid, 'the sentinel that primes a running-minimum table is the bound of the values recorded in it')
+    n = 0
+    for fname in funcs:
+        f = next((g for g in prog.all_funcs() if g.name == fname), None)
+        if f is None:
+            raise AnalysisBroken('%s not found' % fname)
+        chk.saw(unit=f.unit, func=f.unit + ':' + f.name)
+        bound_of = {}       # loop variable id -> bound variable (id, name)
+        dims = {}
+        for x in f.body.walk():
+            if x.k == 'For' and x.c[0] is not None and x.c[1] is not None:
+                i0, c0 = strip(x.c[0]), strip(x.c[1])
+                if i0.k == 'Assign' and strip(i0.c[0]).k == 'Ref' and c0.k == 'Binary' and c0.a['op'] == '<' and strip(c0.c[1]).k == 'Ref':
+                    b = strip(c0.c[1])
+                    bound_of[strip(i0.c[0]).a.get('id')] = (b.a.get('id'), b.a.get('name'))
+                    dims[b.a.get('id')] = b.a.get('name')
+        recorded, sentinel = {}, {}
+        for x in f.body.walk():
+            if x.k != 'Assign' or x.a['op'] != '=' or strip(x.c[0]).k != 'Index' or strip(strip(x.c[0]).c[0]).k != 'Ref':
+                continue
+            arr = strip(strip(x.c[0]).c[0])
+            r = strip(x.c[1])
+            if r.k == 'Ref' and r.a.get('id') in dims:
+                sentinel.setdefault(arr.a.get('id'), []).append((x, r))
+                continue
+            leaves = [strip(r.c[1]), strip(r.c[2])] if r.k == 'Cond' else [r]      # MIN(old, v) after macro expansion, or plain v
+            for y in leaves:
+                if y.k == 'Ref' and y.a.get('id') in bound_of:
+                    recorded.setdefault(arr.a.get('id'), []).append((x, y))
+        for aid in sorted(set(recorded) & set(sentinel)):
+            for (sx, d) in sentinel[aid]:
+                n += 1
+                bnds = {bound_of[y.a.get('id')] for (_, y) in recorded[aid]}
+                nm = strip(strip(sx.c[0]).c[0]).a.get('name')
+                inst = '%s:%s:sentinel-is-the-bound-of-what-is-recorded' % (fname, nm)
+                if bnds == {(d.a.get('id'), d.a.get('name'))}:
+                    chk.ok(cid, inst, sample='`%s`; recorded values run below %s' % (pretty(sx)[:40], d.a.get('name')))
+                else:
+                    chk.violate(cid, inst, loc(f, sx), fname,
+                                '`%s` primes %s[] with %s, but the values recorded in it (`%s`) run below %s: when %s < %s a real value can equal the '
+                                'sentinel and is taken for "nothing seen"' % (pretty(sx)[:40], nm, d.a.get('name'), pretty(recorded[aid][0][0])[:50],
+                                                                               sorted(b[1] for b in bnds), d.a.get('name'), sorted(b[1] for b in bnds)[0]),
+                                cfgname=cfgname)
+    if n < 1:
+        raise AnalysisBroken('%s: no primed running-minimum table found' % cid)
+    return n
